@@ -16,7 +16,13 @@ pack-0.92, rich-root-pack, knit, 1.9, 1.14, 1.14-rich-root, dirstate-tags);
 2a->2a additionally by Branch.pull, Branch.push, into a repository stacked on a
 fallback that holds S, and through the in-process loopback smart server in both
 directions (remote target: insert_stream; remote source: get_stream; push to /
-pull from a remote branch); pack-0.92->2a also with the tree-delta based
+pull from a remote branch), and from a remote source that is itself a STACKED
+branch served by the smart server (relative stacked-on location, so the
+fallback is remote too), with the history split between the stacked repository
+and its fallback in every way (every ancestor-closed subset F lives in the
+fallback, the rest in the stacked repository; includes merges whose right-hand
+parent is only in the fallback) x every target pre-content x every tip;
+pack-0.92->2a also with the tree-delta based
 InterDifferingSerializer (selected with the IDS_always debug flag, as breezy
 itself only selects it for file:// repositories).
 
@@ -42,7 +48,9 @@ FORMATS = ("2a", "pack-0.92", "rich-root-pack", "knit", "1.9", "1.14", "1.14-ric
 RICH = {"2a", "rich-root-pack", "1.14-rich-root"}
 QUICK_PAIRS = (("2a", "2a"), ("pack-0.92", "pack-0.92"), ("pack-0.92", "2a"), ("rich-root-pack", "2a"),
                ("knit", "pack-0.92"), ("1.9", "1.14"))
-ROUTES_2A = ("pull", "push", "stacked", "smart-fetch-to", "smart-fetch-from", "smart-push", "smart-pull")
+ROUTES_2A = ("pull", "push", "stacked", "smart-fetch-to", "smart-fetch-from", "smart-push", "smart-pull",
+             "smart-fetch-from-stacked")
+SPLIT_ROUTES = ("smart-fetch-from-stacked",)      # routes whose source is enumerated over (stacked | fallback) splits
 
 
 def configs(thorough, n):
@@ -72,8 +80,36 @@ def _open_target(T, route, tf, fallback_nodes, hist, src_repo):
         mw.make_branch(T.transport("t"), tf)
 
 
-def _do(route, S, T, hist, tip):
-    """Perform the transfer of `tip` from the source (store S, 'src') to the target (store T, 't')."""
+def _make_split_source(S, k, hist, F, src_repo):
+    """In store S: split<k>/fallback holds the ancestor-closed set F, split<k>/stk is a branch stacked on
+    '../fallback' (relative, as on a hosting site) whose own repository holds everything else."""
+    from mc import world as mw
+    S.transport("split%d" % k).ensure_base()
+    fb = mw.make_branch(S.transport("split%d/fallback" % k), "2a")
+    for h in hist.heads(F):
+        fb.repository.fetch(src_repo, revision_id=hist.revid(h))
+    if F:
+        fb.generate_revision_history(hist.revid(max(F)))
+    b = mw.make_branch(S.transport("split%d/stk" % k), "2a")
+    b.set_stacked_on_url("../fallback")
+    from breezy.branch import Branch
+    b = Branch.open(S.url + "split%d/stk" % k)
+    for h in hist.heads(range(hist.n)):
+        b.repository.fetch(src_repo, revision_id=hist.revid(h))
+    b.generate_revision_history(hist.revid(hist.n - 1))
+    # the split must be physical: the stacked repository holds exactly the complement of F
+    from breezy.repository import Repository
+    r0 = Repository.open(S.url + "split%d/stk" % k)
+    with r0.lock_read():
+        own = {key[-1] for key in r0.revisions.keys()}
+    want = {hist.revid(i) for i in range(hist.n) if i not in F}
+    if r0._fallback_repositories or own != want:
+        raise HarnessError("split source: stacked repository holds %r, expected %r" % (sorted(own), sorted(want)))
+    return "split%d/stk" % k
+
+
+def _do(route, S, T, hist, tip, src="src"):
+    """Perform the transfer of `tip` from the source (store S, branch `src`) to the target (store T, 't')."""
     from breezy.branch import Branch
     from . import _loopback
     rid = hist.revid(tip)
@@ -102,9 +138,14 @@ def _do(route, S, T, hist, tip):
     elif route == "smart-fetch-to":
         tgt = Branch.open(_loopback.url_for(T) + "t").repository
         tgt.fetch(Branch.open(S.url + "src").repository, revision_id=rid)
-    elif route == "smart-fetch-from":
+    elif route in ("smart-fetch-from", "smart-fetch-from-stacked"):
         tgt = Branch.open(T.url + "t").repository
-        tgt.fetch(Branch.open(_loopback.url_for(S) + "src").repository, revision_id=rid)
+        rsrc = Branch.open(_loopback.url_for(S) + src).repository
+        if route == "smart-fetch-from-stacked":
+            from breezy.bzr.remote import RemoteRepository
+            if not (rsrc._fallback_repositories and all(isinstance(f, RemoteRepository) for f in rsrc._fallback_repositories)):
+                raise HarnessError("stacked smart source: fallback is not a RemoteRepository")
+        tgt.fetch(rsrc, revision_id=rid)
     elif route == "smart-push":
         Branch.open(S.url + "src").push(Branch.open(_loopback.url_for(T) + "t"), stop_revision=rid, overwrite=True)
     elif route == "smart-pull":
@@ -135,19 +176,40 @@ def check_history(hist, cfgs, acc):
             with src_repo.lock_read():
                 src_facts = {i: fw.rev_facts(src_repo, hist.revid(i)) for i in range(hist.n)}
                 src_check = set(fw.check_summary(src_repo))
+            split_src = {}
             for (_sf, tf, route) in lst:
                 name = "%s:%s->%s" % (route, sf, tf)
                 same_root = (sf in RICH) == (tf in RICH)
-                for pre in subsets:
+                splits = hist.source_splits() if route in SPLIT_ROUTES else [None]
+                for F, pre in [(F, pre) for F in splits for pre in subsets]:
                     tips = [i for i in range(hist.n) if i not in pre]
                     if not tips:
                         continue
                     for tip in tips:      # accounting depends on the enumeration only, never on the code under test
                         acc.n += 1
                         acc.count("cases:" + name)
-                        overlap = set(pre) & hist.ancestors(tip)
-                        if overlap and overlap != hist.ancestors(tip):
-                            acc.nt((name, hist.key(), pre, tip))
+                        anc = hist.ancestors(tip)
+                        overlap = set(pre) & anc
+                        if overlap and overlap != anc:
+                            acc.nt((name, hist.key(), F, pre, tip))
+                        elif F is not None and (set(F) & anc) and not anc <= set(F):
+                            acc.nt((name, hist.key(), F, pre, tip))
+                    src = "src"
+                    if F is not None:
+                        if F not in split_src:
+                            try:
+                                split_src[F] = _make_split_source(S, len(split_src), hist, F, src_repo)
+                            except HarnessError:
+                                raise
+                            except Exception as e:  # noqa
+                                split_src[F] = e
+                        if isinstance(split_src[F], Exception):
+                            e = split_src[F]
+                            acc.violation("%s:source-setup:%s:%s" % (name, type(e).__name__, fw.innermost_repo_frame(e)),
+                                          {"config": name, "history": hist.describe(), "pre_content": sorted(pre),
+                                           "source_fallback_content": sorted(F), "tip": tips[0], "error": str(e)[:300]})
+                            continue
+                        src = split_src[F]
                     T = new_store()
                     try:
                         T.logging = False
@@ -166,7 +228,7 @@ def check_history(hist, cfgs, acc):
                         for k, tip in enumerate(tips):
                             if k:
                                 T.restore(snap)
-                            one_case(acc, name, route, S, T, hist, pre, tip, src_facts, src_check, same_root)
+                            one_case(acc, name, route, S, T, hist, pre, tip, src_facts, src_check, same_root, src, F)
                     finally:
                         _loopback.forget(T)
                         T.close()
@@ -175,12 +237,14 @@ def check_history(hist, cfgs, acc):
             S.close()
 
 
-def one_case(acc, name, route, S, T, hist, pre, tip, src_facts, src_check, same_root):
+def one_case(acc, name, route, S, T, hist, pre, tip, src_facts, src_check, same_root, src="src", F=None):
     from breezy.branch import Branch
     anc = hist.ancestors(tip)
     detail = {"config": name, "history": hist.describe(), "pre_content": sorted(pre), "tip": tip}
+    if F is not None:
+        detail["source_fallback_content"] = sorted(F)
     try:
-        _do(route, S, T, hist, tip)
+        _do(route, S, T, hist, tip, src)
     except Exception as e:  # noqa
         acc.violation("%s:%s:%s" % (name, type(e).__name__, fw.innermost_repo_frame(e)), dict(detail, error=str(e)[:300]))
         return
@@ -228,7 +292,7 @@ def one_case(acc, name, route, S, T, hist, pre, tip, src_facts, src_check, same_
     T.log = []
     T.logging = True
     try:
-        _do(route, S, T, hist, tip)
+        _do(route, S, T, hist, tip, src)
     except Exception as e:  # noqa
         acc.violation("%s:again:%s:%s" % (name, type(e).__name__, fw.innermost_repo_frame(e)), dict(detail, error=str(e)[:300]))
         return
@@ -252,7 +316,7 @@ def _work(chunk):
     return acc
 
 
-LIGHT_ROUTES = ("pull", "push", "smart-fetch-to", "smart-fetch-from", "smart-push", "smart-pull")
+LIGHT_ROUTES = ("pull", "push", "smart-fetch-to", "smart-fetch-from", "smart-push", "smart-pull", "smart-fetch-from-stacked")
 
 
 def plan(ctx):
@@ -265,7 +329,10 @@ def plan(ctx):
     light = [c for c in cf if c[2] in LIGHT_ROUTES]
     alt_keys = {h.key() for h in fw.histories(3, assignments="alt")}
     for h in fw.histories(3):
-        items.append((h, heavy + (light if h.key() in alt_keys else [])))
+        if h.key() in alt_keys:
+            items.append((h, heavy + light))
+        else:   # thorough: the stacked smart source (all splits) for every tree assignment
+            items.append((h, heavy + ([c for c in light if c[2] in SPLIT_ROUTES] if ctx.thorough else [])))
     if ctx.thorough:
         cf4 = [("2a", "2a", "fetch"), ("pack-0.92", "2a", "fetch"), ("2a", "2a", "smart-fetch-to"), ("2a", "2a", "stacked")]
         for h in fw.histories(4, assignments="alt"):
@@ -296,12 +363,14 @@ def run(ctx):
     best = {}
     for sig, d in acc.violations:
         k = (len(d["history"]["dag"]), d["history"]["ghost_parent_at"] is not None, len(d.get("pre_content", ())),
-             repr(d["history"]), d.get("tip", 0))
+             len(d.get("source_fallback_content", ())), repr(d["history"]), d.get("tip", 0))
         if sig not in best or k < best[sig][0]:
             best[sig] = (k, d)
     for sig in sorted(best):
         ctx.violation(sig, best[sig][1])
     ctx.assumptions.append("target pre-contents are produced by earlier fetches of the heads of S from the same source")
+    ctx.assumptions.append("stacked smart sources are produced by fetching F into the fallback and all heads into a branch "
+                           "stacked on '../fallback'; the physical split is asserted before use")
     ctx.assumptions.append("revisions beyond the requested ancestry arriving in the target are counted, not flagged")
     cases = {k[6:]: v for k, v in acc.counters.items() if k.startswith("cases:")}
     return {
@@ -331,6 +400,9 @@ def replay(ctx, data):
     class One(fw.History):
         def closed_subsets(self):
             return [frozenset(d["pre_content"])]
+
+        def source_splits(self):
+            return [frozenset(d.get("source_fallback_content", ()))]
     one = One(hist.dag, hist.states, hist.ghost_at)
     check_history(one, [(sf, tf, route)], acc)
     sigs = sorted({s for s, _x in acc.violations})
